@@ -31,6 +31,9 @@ import itertools
 from mc import core, explorer
 
 NEEDS_BRIDGEPOINT = False
+NONE_GENS = ['int']          # generator kinds of the creation cases that get explicit None values (see call_args)
+RESEED_VALUE = 20240924
+RESEED_MAX = 2
 BUDGET_S = {'quick': 3600, 'thorough': 14400}
 ASSUMPTIONS = [
     'the first sentence of the statement is read literally: every non-referential attribute is given its default before the '
@@ -51,6 +54,13 @@ ASSUMPTIONS = [
     'next(it) with it = iter(g), a for loop left with break, itertools.islice or zip(range(n), g) counts as handed out '
     '(consumed exactly once, in sequence), exactly like g.next() and next(g); iteration forms that pull a value and drop it '
     '(zip(g, range(n))) are not generated',
+    'an explicit None is a supplied value like any other (applied in its turn; the attribute, unique ids included, then reads None; '
+    'a keyword None overrides a positional value): per creation case two more instances (all positional values None / all keyword '
+    'values None), generator kinds %s, first spelling of the type names only; each of the two is cloned through MetaModel.clone / '
+    'MetaClass.clone, which is read as a creation that supplies every value of the original (unset ones included) positionally' % NONE_GENS,
+    'generator histories, menu reseed: the program calls random.seed(%d) up to %d times between peek / next / creations (every '
+    'generator kind); the operation seeds explicitly, nothing else in the check depends on the state of the random module; canonical '
+    'state includes the numbers of values handed out at each re-seed' % (RESEED_VALUE, RESEED_MAX),
     'keyword arguments are spelled as declared (other spellings: C10); the value read back for a referential attribute is '
     'compared only when the call supplied the id of an existing instance',
 ]
@@ -386,7 +396,8 @@ def run_schema(sub, task):
                 for gen in gens:
                     for route in routes:
                         case = dict(part='create', fam=fam, types=spelled, special=special, unknown=unknown,
-                                    special_style=(k + len(kw)) % 3, npos=npos, kw=kw, gen=gen, route=route, names=names)
+                                    special_style=(k + len(kw)) % 3, npos=npos, kw=kw, gen=gen, route=route, names=names,
+                                    nones=bool(gen in NONE_GENS and style == styles[0]))
                         run_creation(sub, case)
     return None
 
@@ -402,18 +413,36 @@ def layout(case):
     return attrs
 
 
+# An explicit None is a value like any other: it is applied (the attribute then reads None) and a keyword None overrides a
+# positional value.  Instances 2 and 3 of a creation case (generators NONE_GENS): 2 = every positional value None, keywords
+# non-None; 3 = positional values non-None, every keyword value None; with the first (lower-case) spelling of the type names only.  Each of them is then cloned (clone() hands every value,
+# unset ones included, to the constructor positionally).
+
+
+def instance_numbers(case):
+    return (0, 1, 2, 3) if case.get('nones') and case['fam'] != 'unknown' else (0, 1)
+
+
 def call_args(case, attrs, inst_no, ref_id):
     '''-> (args, kwargs, explicit {index: finally expected value})'''
     args, kwargs, explicit = [], {}, {}
     for i, (name, _, ty, role) in enumerate(attrs):
         if i < case['npos']:
             # (second instance: a null positional value for the referential attribute, overridden by a keyword if given)
-            v = (ref_id if inst_no == 0 else None) if role == 'ref' else (POS[ty][inst_no] if ty in POS else 'odd-value')
+            if inst_no == 2:
+                v = None
+            elif role == 'ref':
+                v = ref_id if inst_no in (0, 3) else None
+            else:
+                v = POS[ty][inst_no % 2] if ty in POS else 'odd-value'
             args.append(v)
             explicit[i] = v
     for i in case['kw']:
         name, _, ty, role = attrs[i]
-        v = ref_id if role == 'ref' else (KW[ty][inst_no] if ty in KW else 'odd-value')
+        if inst_no == 3:
+            v = None
+        else:
+            v = ref_id if role == 'ref' else (KW[ty][inst_no % 2] if ty in KW else 'odd-value')
         kwargs[name] = v
         explicit[i] = v
     return args, kwargs, explicit
@@ -487,7 +516,7 @@ def _creation(sub, case):
     else:
         mc = m.define_class('K', decl)
     jattrs = [(a[0], a[2], a[3]) for a in attrs]
-    for inst_no in (0, 1):
+    for inst_no in instance_numbers(case):
         args, kwargs, explicit = call_args(case, attrs, inst_no, ref_id)
         sub.count('news')
         inst = create(m, mc, case['route'], args, kwargs)
@@ -497,6 +526,19 @@ def _creation(sub, case):
         if not got:
             sub.distinct('outcomes', tuple((ty, i in explicit, type(getattr(inst, nm)).__name__)
                                            for i, (nm, ty, _) in enumerate(jattrs)))
+        if inst_no >= 2 and not got:
+            nones = sum(1 for v in explicit.values() if v is None)
+            sub.count('none_values', nones)
+            sub.count('keyword_none_over_positional', sum(1 for i in case['kw'] if i < case['npos']) if inst_no == 3 else 0)
+            # clone: every value of the original, unset ones included, arrives positionally
+            values = dict((i, getattr(inst, nm)) for i, (nm, _, role) in enumerate(jattrs))
+            sub.count('news')
+            sub.count('clones')
+            twin = (m if case['route'] == 'm.new' else mc).clone(inst)
+            got = judge_instance(twin, jattrs, values, gref)
+            problems += [('clone:' + k.split(':', 1)[1], 'clone of the instance created by call number %d: %s' % (inst_no + 1, msg), e, o)
+                         for k, msg, e, o in got]
+            sub.count('instances_judged')
     both = [i for i in case['kw'] if i < case['npos']]
     if both:
         sub.count('both_positional_and_keyword')
@@ -520,12 +562,15 @@ def unit_test_creation(case):
     if case['fam'] == 'ref':
         lines += ["m.define_association(1, 'K', ['Ref'], True, True, '', 'T', ['Id'], False, True, '').formalize()",
                   "t = m.new('T')   # ref_id = t.Id"]
-    for inst_no in (0, 1):
+    for inst_no in instance_numbers(case):
         args, kwargs, _ = call_args(case, attrs, inst_no, 'ref_id' if case['fam'] == 'ref' else None)
         a = ', '.join([repr(x) for x in args] + ['%s=%r' % kv for kv in kwargs.items()]).replace("'ref_id'", 't.Id')
         call = {'m.new': "m.new('K'%s)" % (', ' + a if a else ''), 'mc.new': 'mc.new(%s)' % a, 'mc()': 'mc(%s)' % a}[case['route']]
         lines.append('i%d = %s' % (inst_no, call))
         lines.append('print([(n, getattr(i%d, n)) for n in %r])' % (inst_no, [x[0] for x in attrs]))
+        if inst_no >= 2:
+            lines.append('c%d = %s.clone(i%d)' % (inst_no, 'm' if case['route'] == 'm.new' else 'mc', inst_no))
+            lines.append('print([(n, getattr(c%d, n)) for n in %r])' % (inst_no, [x[0] for x in attrs]))
         if case['fam'] == 'unknown':
             break
     return '\n'.join(lines)
@@ -562,6 +607,12 @@ ITER_NEW = ['new K1', 'new K2', 'new K2 x Id2=y']
 ITER_TAKE = ['for', 'islice', 'zip']
 ITER_MAX_TAKE = 2
 ITER_MAX_ITERATORS = 2
+
+
+# menu 'reseed': the program re-seeds python's global random module (random.seed(RESEED_VALUE), as simulations and
+# reproducible test harnesses do) between peeks / nexts / creations.  Reference: the operation is no concern of any
+# generator -- what was handed out stays handed out, nothing is ever handed out twice.
+RESEED_NEW = ['new K1', 'new K2']
 
 
 def take(gen, how, n):
@@ -602,6 +653,7 @@ class GenModel(explorer.Model):
         w.peeks = 0
         w.it = None                # the live iterator obtained with iter(g) (menu 'iter')
         w.it_taken = w.iters = 0
+        w.reseeds = []             # number of values handed out when random was re-seeded (menu 'reseed')
         for op in hist:
             self.step(w, op)
         return w
@@ -609,6 +661,16 @@ class GenModel(explorer.Model):
     def enabled(self, w):
         ops = [['peek']]
         hi = w.ref.pos + getattr(w.ref, 'slack', 0)     # upper bound of values drawn so far
+        if self.menu == 'reseed':
+            if hi + 1 <= self.cap:
+                ops.append(['next'])
+            if len(w.reseeds) < RESEED_MAX:
+                ops.append(['reseed', RESEED_VALUE])
+            for name in RESEED_NEW:
+                cls = B_NEW[name][0]
+                if hi + sum(1 for _, t in dict(B_CLASSES)[cls] if t.upper() == 'UNIQUE_ID') <= self.cap:
+                    ops.append([name])
+            return ops
         if hi + 1 <= self.cap:
             ops += [['next'], ['pynext']]
         if self.menu == 'iter':
@@ -643,6 +705,11 @@ class GenModel(explorer.Model):
         if name == 'pynext':
             v = next(w.gen)
             return [(k, m, e, v) for k, m, e in w.ref.next(v)]
+        if name == 'reseed':
+            import random
+            random.seed(op[1])
+            w.reseeds.append(w.ref.pos + getattr(w.ref, 'slack', 0))
+            return []
         if name == 'iter':
             w.it = iter(w.gen)
             w.it_taken = 0
@@ -687,8 +754,12 @@ class GenModel(explorer.Model):
         elif op[0] in ('iter', 'itnext') or op[0] in ITER_TAKE:
             ctx.count('generator_calls')
             ctx.count('iteration_steps')
+        elif op[0] == 'reseed':
+            ctx.count('reseeds')
         else:
             ctx.count('news')
+            if w.reseeds:
+                ctx.count('creations_after_reseed')
             if self.menu == 'iter' and (w.it_taken or any(h[0] in ITER_TAKE for h in hist)):
                 ctx.count('creations_after_iteration')
         if op[0] != 'peek' and w.peeks:
@@ -705,6 +776,8 @@ class GenModel(explorer.Model):
     def canon(self, w):
         mask = tuple(min(w.made[k], 2) if k == 'K0' else bool(w.made[k]) for k, _ in B_CLASSES)
         proxy = getattr(w.gen, '_current', None) if self.kind in ('int', 'user') else None
+        if self.menu == 'reseed':
+            return (w.ref.pos, getattr(w.ref, 'slack', 0), w.ref.pending is not None, w.last, tuple(w.reseeds), proxy)
         if self.menu == 'iter':
             itstate = 0 if w.it is None else 2 if w.it_taken else 1
             return (w.ref.pos, getattr(w.ref, 'slack', 0), w.ref.pending is not None, itstate, w.iters, w.last,
@@ -712,9 +785,12 @@ class GenModel(explorer.Model):
         return (w.ref.pos, getattr(w.ref, 'slack', 0), w.ref.pending is not None, mask, w.last, bool(w.explicit), proxy)
 
 
+MENU_LABEL = {'plain': '', 'iter': 'iter-', 'reseed': 'reseed-'}
+
+
 def run_history(sub, task):
     kind, cap, menu = task
-    res = explorer.bfs(sub, GenModel(kind, cap, menu), chunk=1 << 30, label='history-%s%s' % ('iter-' if menu == 'iter' else '', kind))
+    res = explorer.bfs(sub, GenModel(kind, cap, menu), chunk=1 << 30, label='history-%s%s' % (MENU_LABEL[menu], kind))
     deepest = max(res['seen'].values(), key=len)
     return dict(generator=kind, cap=cap, menu=menu, states=res['states'], depth=res['depth'], closed=res['closed'],
                 deepest_history=[''.join(str(x) for x in o) for o in deepest])
@@ -736,6 +812,8 @@ def unit_test_history(model, hist, op):
             return 'print(g.next())'
         if o[0] == 'pynext':
             return 'print(next(g))'
+        if o[0] == 'reseed':
+            return 'import random; random.seed(%d)' % o[1]
         if o[0] == 'iter':
             return 'it = iter(g)'
         if o[0] == 'itnext':
@@ -1024,10 +1102,10 @@ def run(ctx):
     cap = 6 if ctx.quick else 9
     total = 0
     # (one search per worker, each run in-process: the searches are small and independent)
-    htasks = [(kind, cap, menu) for menu in ('plain', 'iter') for kind in explorer.rotate(GEN_KINDS_B, ctx.seed)]
+    htasks = [(kind, cap, menu) for menu in ('plain', 'iter', 'reseed') for kind in explorer.rotate(GEN_KINDS_B, ctx.seed)]
     for res in ctx.pmap(run_history, htasks, chunk=1):
         total += res['states']
-        label = 'history-%s%s' % ('iter-' if res['menu'] == 'iter' else '', res['generator'])
+        label = 'history-%s%s' % (MENU_LABEL[res['menu']], res['generator'])
         ctx.notes[label] = dict(states=res['states'], depth=res['depth'], closed=res['closed'])
         ctx.sample(res)
         print('  %-20s states=%d depth=%d closed=%s t=%.0fs' % (label, res['states'], res['depth'],
@@ -1061,6 +1139,12 @@ def run(ctx):
     ctx.require(ctx.n('creations_after_iteration') >= 1000, 'too few creations after an iteration (%d)' %
                 ctx.n('creations_after_iteration'))
     ctx.require(ctx.nd('outcomes') >= 100, 'too few distinct outcomes (%d)' % ctx.nd('outcomes'))
+    ctx.require(ctx.n("reseeds") >= 500 and ctx.n('creations_after_reseed') >= 1000,
+                'too few histories that re-seed the random module (%d re-seeds, %d creations after one)' %
+                (ctx.n('reseeds'), ctx.n('creations_after_reseed')))
+    ctx.require(ctx.n('none_values') >= 10000 and ctx.n('keyword_none_over_positional') >= 5000 and ctx.n('clones') >= 10000,
+                'too few explicit None values (%d; %d keyword None over a positional value; %d clones)' %
+                (ctx.n('none_values'), ctx.n('keyword_none_over_positional'), ctx.n('clones')))
 
 
 def replay(ctx, case):
@@ -1100,6 +1184,10 @@ def coverage(ctx):
                        forms=['it = iter(g); next(it)'] + ['%s (1..%d values)' % (h, ITER_MAX_TAKE) for h in
                                                            ('for v in g: ... break', 'itertools.islice(g, n)', 'zip(range(n), g)')],
                        iterators_per_history=ITER_MAX_ITERATORS, creations=ITER_NEW, two_generator_ops=C_OPS),
+        explicit_none=dict(values=ctx.n('none_values'), keyword_none_over_positional_value=ctx.n('keyword_none_over_positional'),
+                           clones=ctx.n('clones'), generators=NONE_GENS),
+        reseed=dict(value=RESEED_VALUE, max_per_history=RESEED_MAX, reseeds=ctx.n('reseeds'),
+                    creations_after_a_reseed=ctx.n('creations_after_reseed'), creations=RESEED_NEW),
         live_edit=dict(steps=ctx.n('live_edit_steps'), creations_after_an_edit=ctx.n('creations_after_live_edit'),
                        edits=D_EDITS, max_edits=D_MAX_EDITS, replacement_generators=D_SWAPS, max_replacements=D_MAX_SWAPS),
         bounds=dict(attribute_lists='length <= 3 over 5 core types%s' % ('' if ctx.quick else ' (length 4 with two spellings, '
